@@ -1,5 +1,5 @@
 """C13 - answers never depend on what was asked before (caches are invisible)."""
-from ..rules import memo, mutation
+from ..rules import memo, mutation, forward, config
 
 DECIDES = ("C13: memo-key completeness and wrapper transparency of the three decorators, what may be memoised "
            "(no generator, no data-file-system effect), no state on the read path outside the memo decorators.")
@@ -13,4 +13,6 @@ def rules(ctx, tier):
         lambda: memo.rule_purememo(ctx),
         lambda: memo.rule_nostate(ctx),
         lambda: mutation.rule_mut(ctx),
+        lambda: forward.rule_fwd_config(ctx),
+        lambda: config.rule_root_idem(ctx),
     ]
